@@ -588,10 +588,27 @@ PROPERTIES["C15"] = {
     "outside": "socket-level linger timer, LINGER=0, duration bounds, kernel buffers, inproc",
 }
 
+PROPERTIES["C20"] = {
+    "mirsym": [
+        M("c20_uring_connection_send_timeouts", "d_c14", "uring_send_timeouts",
+          "io_uring backend (MIR dump built with --features io-uring): ZmtpSmartConnection::{send_multipart, send_multipart_owned} on a full egress queue of capacity 1 - the obligations of C14's c14_sca_send_timeouts (SNDTIMEO in {-1, 0, any positive value}, recording timer, then room / still full / elapsed) applied to the other backend's connection interface; signal_worker() stubbed",
+          budget={"quick": 300, "thorough": 400},
+          required_covers=["c14.sca-send.wouldblock", "c14.sca-send.completed-after-wait", "c14.sca-send.still-waiting", "c14.sca-send.timed-out"], features="uring"),
+    ],
+    "assumptions": MIRSYM_TRUST + ["differential by construction: the same driver and the same assertions as for the tokio session's ScaConnectionIface (C14); no native replay (the io_uring backend is not exercised natively in this sandbox)"],
+    "manifest": {
+        "engine": "mirsym",
+        "technique": "symbolic execution (mirsym, z3) of the io_uring backend's connection interface from a MIR dump built with the io-uring feature, against the obligations the default backend meets",
+        "text": "One kernel of the equivalence: the io_uring backend's connection interface treats SNDTIMEO exactly as the default backend's does - immediate would-block for 0, a timer of exactly SNDTIMEO for positive values and Timeout/ResourceLimitReached only when it has elapsed, no timer for -1, the message enqueued exactly once on success and never on failure.",
+        "design_ref": "DESIGN.md §5 (C20)",
+        "note": "NOT claimed: everything else in the property - delivered messages and order, handshake outcomes, buffer ring / send pool accounting, file descriptors, multishot / zero-copy / cork variants (kernel objects and a second I/O driver). Seen by reading and not decided: nothing in io_uring_backend/ ever calls ZmtpEngine::on_tick, so heartbeats are not driven on that backend.",
+    },
+    "outside": "message delivery equivalence, handshake outcomes, buffer accounting, fds, heartbeat clock on the io_uring backend",
+}
+
 HOOK_COMMITS = ["e6aec85", "b7f56e8", "904f401", "7ede9e5", "6da26bc", "f8dc301", "ef592c1"]
 
 NOT_APPLICABLE = {
-    "C20": "backend equivalence and kernel-object lifecycles (io_uring rings, fds) cannot be encoded; handlers need a live IoUring (DESIGN.md §5 C20)",
 }
 
 
